@@ -29,7 +29,7 @@ CONFIGS = {
 }
 DURS_Q = [1, 50, 700, 1500]
 DURS_T = [1, 5, 50, 300, 700, 1000, 1500, 2500, 4000]
-KINDS = ["A-stopstart", "B-stopstart", "A-stop", "B-stop", "A-crash", "B-crash", "loss", "dup", "reorder"]
+KINDS = ["A-stopstart", "B-stopstart", "A-stop", "B-stop", "A-crash", "B-crash", "A-crashstop", "B-crashstop", "loss", "dup", "reorder"]
 
 
 def bounds(tier):
@@ -41,8 +41,8 @@ def cases(tier, seed):
     cfgs = ["t1", "inf"] if tier == "quick" else ["t1", "t2", "t3", "inf"]
     for c in cfgs:
         for k in KINDS:
-            if c == "inf" and k in ("loss", "dup", "reorder"):
-                continue
+            if c == "inf" and k in ("loss", "dup", "reorder", "A-crashstop", "B-crashstop"):
+                continue  # with infinite TTLs a silent death is, by design, never noticed
             if tier == "quick" and c == "inf" and k in ("A-stop", "B-stop"):
                 continue
             out.append({"h": "H04", "cfg": c, "kinds": [k], "tmax": 2500 if tier == "quick" else 6000, "durs": DURS_Q if tier == "quick" else DURS_T, "_w": 10})
@@ -177,6 +177,17 @@ def h04(E, M, case):
             sc.at(ts, lambda w=who: st[w].stop(), "d%ds" % di, joinable=False)
             running[who] = False
             te = ts
+        elif kind.endswith("crashstop"):
+            # dies silently and stays down: the peer can only learn it from the TTL
+
+            def die(w=who):
+                net.cut.add(w)
+                st[w].stop()
+                net.nodes.pop(w, None)
+
+            sc.at(ts, die, "d%ds" % di, joinable=False)
+            running[who] = False
+            te = ts
         elif kind.endswith("crash"):
 
             def crash(w=who):
@@ -211,7 +222,8 @@ def h04(E, M, case):
     E.observe([bl[-3:], al[-3:], net.count])
     if a_offers:
         E.reach("h04.offered")
-    E.require((bool(bl) and bl[-1] == "offered") == a_offers, "the watcher's listener reports the service as offered exactly when the offering stack offers it", {"watcher_log_tail": bl[-4:], "offering": a_offers, "kinds": case["kinds"]})
+    b_dead = any(k == "B-crashstop" for k in case["kinds"])
+    E.require(b_dead or (bool(bl) and bl[-1] == "offered") == a_offers, "the watcher's listener reports the service as offered exactly when the offering stack offers it", {"watcher_log_tail": bl[-4:], "offering": a_offers, "kinds": case["kinds"]})
     want_sub = a_offers and b_runs
     if want_sub:
         E.reach("h04.subscribed")
